@@ -8,6 +8,7 @@ import (
 	"strconv"
 	"time"
 
+	"tsim/ag"
 	"tsim/kernel"
 	"tsim/lc"
 	"tsim/node"
@@ -33,6 +34,7 @@ func registry() *kernel.Registry {
 	}
 	xr.Register(reg)
 	lc.Register(reg)
+	ag.Register(reg)
 	return reg
 }
 
